@@ -33,7 +33,7 @@ def run(ctx):
         finished = {e["i"] for e in evs if e["ev"] == "render"}
         if last not in finished:
             # the process died inside this case without a report: a crash outside the harness's recover
-            events.append({"ev": "render", "i": last, "outcome": "panic", "ms": 0, "size": 0, "desc": begun[-1]["desc"], "what": "process died: " + txt[-400:]})
+            events.append({"ev": "render", "i": last, "outcome": "panic", "ms": 0, "size": 0, "bytes": 0, "desc": begun[-1]["desc"], "what": "process died: " + txt[-400:]})
         start = last + 1
         restarts += 1
     bad, r2 = vlib.judge(ctx, "T_Outcome", "T_Outcome.cfg", events)
